@@ -3201,11 +3201,21 @@ def __catch_to_py_ast(
             sym.symbol(exc_binding.name), catch_exc_name, LocalType.CATCH
         )
         catch_ast = _synthetic_do_to_py_ast(ctx, catch.body)
+        # Python unbinds the `except ... as` name when the handler exits, which a
+        # function created in the handler would find out when it is called later,
+        # so the exception is bound to a second name which is left alone
+        handler_exc_name = genname("exc")
         return ast.ExceptHandler(
             type=exc_type.node,
-            name=catch_exc_name,
+            name=handler_exc_name,
             body=list(
                 chain(
+                    [
+                        ast.Assign(
+                            targets=[ast.Name(id=catch_exc_name, ctx=ast.Store())],
+                            value=ast.Name(id=handler_exc_name, ctx=ast.Load()),
+                        )
+                    ],
                     map(statementize, catch_ast.dependencies),
                     [
                         ast.Assign(
